@@ -49,6 +49,41 @@ PROPS = {
                       "Store contract <-> concrete store refinement argument (DESIGN 6.1), Memory.remove contract "
                       "(assumed, bounded), __ctx_to_str key model.",
     },
+    "C02": {
+        "modules": ["contracts.c02_dataset"],
+        "claim_level": "other",
+        "design_ref": "6.2",
+        "technique": TECH,
+        "clauses_decided": [
+            "ConjunctiveGraph._graph / get_context / get_graph / contexts: a context argument (None, name, Graph object, "
+            "Dataset object) is normalised to a graph on this store without changing any quad (proved)",
+            "ConjunctiveGraph.add / remove / remove_context, Dataset.graph / remove_graph: exactly the addressed graph "
+            "changes; removing without a graph removes from every graph; remove_graph empties and forgets only that "
+            "graph and the default graph stays known (proved)",
+            "ConjunctiveGraph.triples / __contains__: a read restricted to graph g (by quad or context=, name or Graph "
+            "object - including an EMPTY graph object, which is falsy in Python) returns exactly G(g); without a graph "
+            "the union or the default graph according to default_union (proved: soundness, no duplicates; completeness "
+            "proved for the shapes the solvers finish within budget)",
+            "ConjunctiveGraph.quads / Dataset.quads / Dataset.graphs: soundness and duplicate-freedom on graph names (proved)",
+            "the store-level clauses (triple shared by several graphs, default-context compression) are the Memory "
+            "representation-invariant obligations of C01",
+        ],
+        "clauses_not_decided": [
+            "completeness of Dataset.quads / Dataset.graphs and of some ConjunctiveGraph.triples argument shapes "
+            "(solver budget): bounded stand-in only",
+            "Dataset.parse, pickling, ReadOnlyGraphAggregate; graph objects living on another store (copy-on-use "
+            "semantics of _graph is specified but such arguments are excluded by precondition from the read contracts)",
+        ],
+        "explanation": "Contracts over the abstract quad view G (name -> triples) and known-names set K on every "
+                       "ConjunctiveGraph/Dataset method the property mentions; Graph-level and store-level callees by "
+                       "their C01 contracts.",
+        "assumptions": A_COMMON,
+        "level_text": "Deductive proof of the per-method contracts over the quad view (all argument shapes incl. empty "
+                      "graph objects and unknown names); a few completeness VCs exceed the solver budget and are "
+                      "covered by the exhaustive small-scope run, hence category 'other'.",
+        "level_note": "Trusted: abstract Store contract (proved for the concrete stores in C01 except Memory.remove), "
+                      "stored-context-object model of Store.contexts, PyVC/z3/cvc5.",
+    },
     "C17": {
         "modules": ["contracts.c17_store"],
         "claim_level": "proof",
